@@ -186,6 +186,18 @@ func ZZC13(n int) {
 		zzv.Assert(len(g.Routers()) == 3-map[bool]int{true: 1, false: 0}[removed >= 0], "group:rejected-Add-changed-the-router-list")
 	}
 
+	// Router(name) / Routers() / Routes() reflect exactly the routers in dispatch
+	for i, nm := range names {
+		got := g.Router(nm)
+		zzv.Assert((got != nil) == (i != removed) && (got == nil || got.Name() == nm), "group:Router(name)-disagrees-with-Add/Remove")
+	}
+	grs := g.Routes()
+	zzv.Assert(len(grs) == len(g.Routers()), "group:Routes()-disagrees-with-Routers()")
+	for i, nm := range names {
+		rs, has := grs[nm]
+		zzv.Assert(has == (i != removed) && (!has || len(rs) == 3), "group:Routes()-lists-removed-or-misses-live-routers")
+	}
+
 	host := zzv.Bytes("h", n/10%10)
 	zzv.Assume(zzASCII(host))
 	path := zzv.Bytes("p", n%10)
